@@ -103,6 +103,9 @@ type partDef struct {
 
 var parts []partDef
 
+// atExit functions run after a shard has written its result (temporary directories etc.).
+var atExit []func()
+
 // definePart registers an enumeration: enum yields every case of the bounded space, check is the
 // oracle for one case (returns an observation, the violations and the number of transitions).
 func definePart[C any](prop, name, tiers, bounds string, enum func(tier string, yield func(C)), check func(C) (string, []Violation, int)) {
@@ -207,6 +210,9 @@ func main() {
 			pd.run(r, p)
 			p.finish()
 			res.Scenarios = append(res.Scenarios, p)
+		}
+		for _, f := range atExit {
+			f()
 		}
 		res.WallS = time.Since(t0).Seconds()
 		b, _ := json.Marshal(res)
